@@ -2505,6 +2505,23 @@ func (p *Parser) parseJSONLiteral(id token.Token) *ast.JSONLiteral {
 	}
 }
 
+// lookaheadQueryStart reports whether the current token starts a query:
+// SELECT, FROM (pipe syntax), or WITH followed by a CTE name (WITH followed by "(" is a WITH expression).
+func (p *Parser) lookaheadQueryStart() bool {
+	switch p.Token.Kind {
+	case "SELECT", "FROM":
+		return true
+	case "WITH":
+		lexer := p.Lexer.Clone()
+		defer func() {
+			p.Lexer = lexer
+		}()
+		p.nextToken()
+		return p.Token.Kind != "("
+	}
+	return false
+}
+
 func (p *Parser) lookaheadSubQuery() bool {
 	lexer := p.Lexer.Clone()
 	defer func() {
@@ -2516,8 +2533,8 @@ func (p *Parser) lookaheadSubQuery() bool {
 	}
 
 	p.nextToken()
-	// (SELECT ... indicates subquery.
-	if p.Token.Kind == "SELECT" {
+	// (SELECT ..., (WITH name AS ... and (FROM ... indicate subquery.
+	if p.lookaheadQueryStart() {
 		return true
 	}
 
